@@ -447,15 +447,17 @@ func (root *Root) replaceArgVars(vars map[string]interface{}, v interface{}, at 
 		}
 	case map[string]interface{}:
 		if it, _ := BaseType(at).(*Input); it != nil {
+			// Substitute into a copy, the literal belongs to the parsed request.
+			m := make(map[string]interface{}, len(tv))
 			for k, v := range tv {
 				var vt Type
 				if f := it.fields.get(k); f != nil {
 					vt = f.Type
 				}
-				tv[k], ea2 = root.replaceArgVars(vars, v, vt)
+				m[k], ea2 = root.replaceArgVars(vars, v, vt)
 				ea = append(ea, ea2...)
 			}
-			if val, err = it.CoerceIn(val); err != nil {
+			if val, err = it.CoerceIn(m); err != nil {
 				ea = append(ea, resWarnp(nil, "%s", err))
 			}
 		}
@@ -464,10 +466,13 @@ func (root *Root) replaceArgVars(vars map[string]interface{}, v interface{}, at 
 		if lt, _ := at.(*List); lt != nil {
 			mt = lt.Base
 		}
+		// Substitute into a copy, the literal belongs to the parsed request.
+		l := make([]interface{}, len(tv))
 		for i, v := range tv {
-			tv[i], ea2 = root.replaceArgVars(vars, v, mt)
+			l[i], ea2 = root.replaceArgVars(vars, v, mt)
 			ea = append(ea, ea2...)
 		}
+		val = l
 	case Symbol:
 		bt := BaseType(at)
 		if et, _ := bt.(*Enum); et != nil {
